@@ -112,7 +112,7 @@ fn check_d<const D: usize>(g: &G, ctx: &mut Ctx) -> Result<(), Failure> {
 }
 
 pub fn check(g: &G, ctx: &mut Ctx) -> Result<(), Failure> {
-    if g.nedges() == 0 || g.nedges() > 12 || !(1..=6).contains(&g.d) {
+    if g.nedges() == 0 || g.nedges() > 16 || !(1..=6).contains(&g.d) {
         fail!("bad-case", "case outside the generator's domain");
     }
     with_d!(g.d, check_d(g, ctx))
